@@ -69,17 +69,17 @@ func unbytes(x interface{}) []byte {
 }
 
 // zero values (= types)
-func Iface() M       { return M{"g": "nil"} }
-func Bool() M        { return M{"g": "bool", "b": false} }
-func Int() M         { return M{"g": "int", "i": float64(0)} }
-func Float() M       { return M{"g": "float", "lit": Bytes([]byte("0"))} }
-func Str() M         { return M{"g": "str", "bytes": []interface{}{}} }
-func ByteSlice() M   { return M{"g": "bytes", "nil": true, "b": []interface{}{}} }
-func Slice() M       { return M{"g": "slice", "nil": true, "e": []interface{}{}} }
-func Map() M         { return M{"g": "map", "nil": true, "m": []interface{}{}} }
-func TSlice(z M) M   { return M{"g": "tslice", "nil": true, "e": []interface{}{}, "z": z} }
-func TMap(z M) M     { return M{"g": "tmap", "nil": true, "m": []interface{}{}, "z": z} }
-func Ptr(z M) M      { return M{"g": "ptr", "nil": true, "v": z} }
+func Iface() M     { return M{"g": "nil"} }
+func Bool() M      { return M{"g": "bool", "b": false} }
+func Int() M       { return M{"g": "int", "i": float64(0)} }
+func Float() M     { return M{"g": "float", "lit": Bytes([]byte("0"))} }
+func Str() M       { return M{"g": "str", "bytes": []interface{}{}} }
+func ByteSlice() M { return M{"g": "bytes", "nil": true, "b": []interface{}{}} }
+func Slice() M     { return M{"g": "slice", "nil": true, "e": []interface{}{}} }
+func Map() M       { return M{"g": "map", "nil": true, "m": []interface{}{}} }
+func TSlice(z M) M { return M{"g": "tslice", "nil": true, "e": []interface{}{}, "z": z} }
+func TMap(z M) M   { return M{"g": "tmap", "nil": true, "m": []interface{}{}, "z": z} }
+func Ptr(z M) M    { return M{"g": "ptr", "nil": true, "v": z} }
 func Struct(f ...M) M {
 	fs := make([]interface{}, len(f))
 	for i, x := range f {
